@@ -36,6 +36,10 @@ PRE_NAMED = "float inf = 0.75\nfloat nan = 1.5\nfloat infinity = 2.25\nfloat e =
 PRE = PRE_NAMED + "str s0 = \"caf\u00e9 \\n\"\nint n0 = 4\nfloat x0 = 2.5\ncomplex z0 = 1-2j\nfloat array A0 =\n    1.5, 2.5\n    -3.0, 4.25\nint array B0[1, 2] =\n    5, -6\n"
 
 
+# half of the array declarations come after statements and a loop (declarations need not come first)
+PRE_STMTS = "P | 7\nfor int i9 in 0:2\n    Q(i9) | [i9, 7]\nR(0.5, k=[1, 2]) | [7, 8]\n"
+
+
 def _load(text):
     st, p = common.loads(text)
     if st == "exc":
@@ -78,7 +82,7 @@ def array_case(c):
     t, r, cc, ps, shape, neg = c
     ps = set(ps)
     n = r * cc
-    text = H + array_text(t, r, cc, ps, shape, neg) + "G(A) | 0\n"
+    text = H + (PRE_STMTS if (r + cc + len(ps)) % 2 else "") + array_text(t, r, cc, ps, shape, neg) + "G(A) | 0\n"
     expect_ok = shape is None or tuple(shape) == (r, cc)
     p, e = _load(text)
     if e is not None:
@@ -88,7 +92,7 @@ def array_case(c):
     if not expect_ok:
         return ("C05/array-wrong-shape-accepted", "declared %r written %r -> %r" % (shape, (r, cc), getattr(p.variables.get("A"), "shape", None)))
     A = p.variables.get("A")
-    arg = p.operations[0]["args"][0]
+    arg = p.operations[-1]["args"][0]
     for what, M in (("variable", A), ("argument", arg)):
         if observe.kind(M) != "a" or M.ndim != 2 or M.shape != (r, cc):
             return ("C05/array-shape", "%s has shape %r, written %r" % (what, getattr(M, "shape", None), (r, cc)))
@@ -208,7 +212,39 @@ def exprarray_case(c):
     return None
 
 
-FAMILIES = {"exprarray": exprarray_case, "scalar": scalar_case, "array": array_case, "ragged": ragged_case, "index": index_case, "whole": whole_array_param_case}
+def arrayexpr_case(c):
+    """arrays in expressions: an argument computed from whole arrays is the element-wise result, and the variables
+    still hold what was declared (also when the same array is used again afterwards)"""
+    t, expr, pre = c
+    import numpy as np
+    vals = {"int": ([[1, -2], [3, 40]], [[5, 6], [-7, 8]]), "float": ([[0.5, -1.5], [2.0, 0.001]], [[10.0, 20.0], [30.0, 40.0]]), "complex": ([[1 + 2j, 0.5j], [-3.0, 2 - 1j]], [[1j, 2], [3, -4j]])}[t]
+    lit = lambda v: ("%r" % v).strip("()") if not isinstance(v, complex) else (("%r" % v).strip("()"))
+    decl = lambda nm, rows: "%s array %s =\n" % (t, nm) + "".join("    " + ", ".join(lit(x) for x in r) + "\n" for r in rows)
+    text = H + pre + decl("M", vals[0]) + decl("N", vals[1]) + "G(%s) | 0\nH(M, N) | 1\nK(%s, M[1]) | 0\n" % (expr, expr)
+    p, e = _load(text)
+    if e is not None:
+        return ("C05/array-expression-rejected:" + type(e).__name__, common.exc_sig(e) + " ;; " + expr)
+    M, N_ = np.array(vals[0]), np.array(vals[1])
+    want = eval(expr, {"M": M, "N": N_})
+    ops = p.operations[len(p.operations) - 3:]
+    for nm, w in (("M", M), ("N", N_)):
+        got = p.variables.get(nm)
+        if observe.kind(got) != "a" or got.shape != w.shape or not all(observe.veq(complex(a), complex(b), 0) for a, b in zip(got.flatten().tolist(), w.flatten().tolist())):
+            return ("C05/array-variable-changed-by-a-later-expression", "after G(%s): %s is %r, declared %r" % (expr, nm, getattr(got, "tolist", lambda: got)(), w.tolist()))
+    for k, (what, got) in enumerate((("first use", ops[0]["args"][0]), ("second use", ops[2]["args"][0]))):
+        if observe.kind(got) != "a" or got.shape != want.shape or not all(observe.veq(complex(a), complex(b), 1e-12) for a, b in zip(got.flatten().tolist(), want.flatten().tolist())):
+            return ("C05/array-expression-value", "%s of %s is %r, element-wise %r" % (what, expr, getattr(got, "tolist", lambda: got)(), want.tolist()))
+    for nm, got, w in (("M", ops[1]["args"][0], M), ("N", ops[1]["args"][1], N_)):
+        if observe.kind(got) != "a" or not all(observe.veq(complex(a), complex(b), 0) for a, b in zip(got.flatten().tolist(), w.flatten().tolist())):
+            return ("C05/array-argument-after-expression", "H(M, N) after G(%s): %s arrives as %r" % (expr, nm, got.tolist()))
+    if not observe.veq(complex(ops[2]["args"][1]), complex(M.flatten()[1]), 0):
+        return ("C05/index-after-expression", "M[1] after %s is %r" % (expr, ops[2]["args"][1]))
+    return None
+
+
+ARRAY_EXPRS = ["M + N", "M - N", "N - M", "M + M", "-M", "M + N - M", "M * N", "N * M - N"]     # (array with scalar is not claimed by any property; the implementation refuses it)
+
+FAMILIES = {"arrayexpr": arrayexpr_case, "exprarray": exprarray_case, "scalar": scalar_case, "array": array_case, "ragged": ragged_case, "index": index_case, "whole": whole_array_param_case}
 
 
 @common.guarded("C05")
@@ -253,6 +289,12 @@ def build(ctx):
     for t in EXPR_ROWS:
         for tr in (False, True):
             cases.append(("exprarray", (t, tr)))
+    for t in VALS:
+        for ex_ in ARRAY_EXPRS:
+            if t == "int" and "/" in ex_:
+                continue
+            for pre in ("", "P | 3\nfor int i in 0:2\n    Q(i) | i\n"):
+                cases.append(("arrayexpr", (t, ex_, pre)))
     for t in tuple(VALS):
         for nrows in (2, 3) if ctx.quick else (2, 3, 4):
             for lens in itertools.product((1, 2, 3), repeat=nrows):
